@@ -61,7 +61,7 @@ def sig(symbols):
         code = s.code
         if code is not None:
             try:
-                code = G.dump(ast.parse(code))
+                code = G.dump(G.parse_code(code))
             except SyntaxError:
                 code = 'unparsable:' + code
         out.append((s.name, s.type.name, s.lags, s.leads, code))
